@@ -183,6 +183,78 @@ theorem agrees_truth (v : Value ν) (h : isTruth v = true) :
   · rename_i b; left; cases b <;> rfl
 
 
+theorem truthOfRes_valueRes (env : Env ν) (v : Value ν) (h : isTruth v = true) :
+    truthOfRes env (valueRes v) = valueRes v := by
+  cases v <;> simp [isTruth] at h <;> simp [truthOfRes, valueRes, toBool, Value.isNull]
+
+theorem cmpT_sql [Num01 ν] (env : Env ν) (op : COp) (lv rv v : Value ν)
+    (h : sqlCmp op lv rv = .ok v) : cmpT env op (valueRes lv) (valueRes rv) = valueRes v := by
+  obtain ⟨hc, _⟩ := cmpStep_sql env op lv rv v h
+  cases lv with
+  | null => simp [sqlCmp] at h; subst h; simp [cmpT, valueRes, Value.isNull]
+  | num x => cases rv with
+    | null => simp [sqlCmp] at h; subst h; simp [cmpT, valueRes, Value.isNull]
+    | num y => simp [sqlCmp] at h; subst h; simp [cmpT, valueRes, Value.isNull, compareValues, toFloat]
+    | str _ => simp [sqlCmp] at h
+    | bool _ => simp [sqlCmp] at h
+  | str s => cases rv with
+    | null => simp [sqlCmp] at h; subst h; simp [cmpT, valueRes, Value.isNull]
+    | num _ => simp [sqlCmp] at h
+    | str t => simp [sqlCmp] at h; subst h; simp [cmpT, valueRes, Value.isNull, compareValues]
+    | bool _ => simp [sqlCmp] at h
+  | bool a => cases rv with
+    | null => simp [sqlCmp] at h; subst h; simp [cmpT, valueRes, Value.isNull]
+    | num _ => simp [sqlCmp] at h
+    | str _ => simp [sqlCmp] at h
+    | bool b =>
+      cases op <;> simp [sqlCmp] at h <;> subst h <;> cases a <;> cases b <;>
+        simp [cmpT, valueRes, Value.isNull, compareValues, toFloat, numCmp,
+          Num01.eq11, Num01.eq00, Num01.eq10, Num01.eq01]
+
+omit [NumOps ν] in
+theorem andT_sql (lv rv v : Value ν) (h : sqlAnd lv rv = .ok v) :
+    andT (valueRes lv) (valueRes rv) = valueRes v := by
+  cases lv with
+  | null => cases rv with
+    | bool b => cases b <;> simp [sqlAnd] at h <;> subst h <;> simp [andT, valueRes, Value.isNull]
+    | null => simp [sqlAnd] at h; subst h; simp [andT, valueRes, Value.isNull]
+    | num _ => simp [sqlAnd] at h
+    | str _ => simp [sqlAnd] at h
+  | bool a => cases rv with
+    | bool b => cases a <;> cases b <;> simp [sqlAnd] at h <;> subst h <;> simp [andT, valueRes, Value.isNull]
+    | null => cases a <;> simp [sqlAnd] at h <;> subst h <;> simp [andT, valueRes, Value.isNull]
+    | num _ => cases a <;> simp [sqlAnd] at h
+    | str _ => cases a <;> simp [sqlAnd] at h
+  | num _ => cases rv <;> simp [sqlAnd] at h
+  | str _ => cases rv <;> simp [sqlAnd] at h
+
+omit [NumOps ν] in
+theorem orT_sql (lv rv v : Value ν) (h : sqlOr lv rv = .ok v) :
+    orT (valueRes lv) (valueRes rv) = valueRes v := by
+  cases lv with
+  | null => cases rv with
+    | bool b => cases b <;> simp [sqlOr] at h <;> subst h <;> simp [orT, valueRes, Value.isNull]
+    | null => simp [sqlOr] at h; subst h; simp [orT, valueRes, Value.isNull]
+    | num _ => simp [sqlOr] at h
+    | str _ => simp [sqlOr] at h
+  | bool a => cases rv with
+    | bool b => cases a <;> cases b <;> simp [sqlOr] at h <;> subst h <;> simp [orT, valueRes, Value.isNull]
+    | null => cases a <;> simp [sqlOr] at h <;> subst h <;> simp [orT, valueRes, Value.isNull]
+    | num _ => cases a <;> simp [sqlOr] at h
+    | str _ => cases a <;> simp [sqlOr] at h
+  | num _ => cases rv <;> simp [sqlOr] at h
+  | str _ => cases rv <;> simp [sqlOr] at h
+
+omit [NumOps ν] in
+theorem not_sql (x v : Value ν) (h : sqlNot x = .ok v) :
+    notT (valueRes x) = valueRes v ∧ notB (valueRes x) = .val (.bool v.isTrue) false ∧
+      isTruth x = true ∧ isTruth v = true := by
+  cases x with
+  | null => simp [sqlNot] at h; subst h; simp [notT, notB, valueRes, Value.isNull, Value.isTrue, isTruth]
+  | bool b => simp [sqlNot] at h; subst h; cases b <;> simp [notT, notB, valueRes, Value.isNull, Value.isTrue, isTruth]
+  | num _ => simp [sqlNot] at h
+  | str _ => simp [sqlNot] at h
+
 /-! ### the induction -/
 
 omit [NumOps ν] in
@@ -226,67 +298,71 @@ structure GoodE (env : Env ν) (row : Row ν) (e : Expr) (v : Value ν) : Prop w
   ag : agrees v (ev env row e .w)
   exact : boolTyped e = false → ev env row e .w = valueRes v
   bmode : boolShaped e = true → isTruth v = true → ev env row e .b = .val (.bool v.isTrue) false
+  tmode : boolShaped e = true → isTruth v = true → ev env row e .t = valueRes v
 
 def Good (env : Env ν) (row : Row ν) (e : Expr) : Prop :=
-  (∀ v, sqlEval env row e .e = .ok v → shapeOK e .e = true → notKnown env row e = true → GoodE env row e v)
-  ∧ (∀ v, sqlEval env row e .chS = .ok v → shapeOK e .chS = true → notKnown env row e = true →
+  (∀ v, sqlEval env row e .e = .ok v → shapeOK e .e = true → GoodE env row e v)
+  ∧ (∀ v, sqlEval env row e .chS = .ok v → shapeOK e .chS = true →
       agrees v (ev env row e .chS) ∧ (boolTyped e = false → ev env row e .chS = valueRes v))
-  ∧ (∀ sv v, sqlEval env row e (.chV sv) = .ok v → shapeOK e .chV = true → notKnown env row e = true →
+  ∧ (∀ sv v, sqlEval env row e (.chV sv) = .ok v → shapeOK e .chV = true →
       agrees v (ev env row e (.chV sv sv.isNull)) ∧
         (boolTyped e = false → ev env row e (.chV sv sv.isNull) = valueRes v))
 
 theorem goodE_of_exact {env : Env ν} {row : Row ν} {e : Expr} {v : Value ν}
     (h : ev env row e .w = valueRes v)
-    (hb : boolShaped e = true → isTruth v = true → ev env row e .b = .val (.bool v.isTrue) false) :
-    GoodE env row e v := ⟨Or.inl h, fun _ => h, hb⟩
+    (hb : boolShaped e = true → isTruth v = true → ev env row e .b = .val (.bool v.isTrue) false)
+    (ht : boolShaped e = true → isTruth v = true → ev env row e .t = valueRes v) :
+    GoodE env row e v := ⟨Or.inl h, fun _ => h, hb, ht⟩
 
 theorem good_all [Num01 ν] (env : Env ν) (row : Row ν) : ∀ e, Good env row e := by
   intro e
   induction e with
   | lit l =>
     refine ⟨?_, ?_, ?_⟩
-    · intro v h _ _
+    · intro v h _
       simp [sqlEval] at h; subst h
-      exact goodE_of_exact (by simp [ev, valueRes, Value.isNull]) (by simp [boolShaped])
+      exact goodE_of_exact (by simp [ev, valueRes, Value.isNull]) (by simp [boolShaped]) (by simp [boolShaped])
     · intro v _ hs; simp [shapeOK] at hs
     · intro sv v _ hs; simp [shapeOK] at hs
   | str s =>
     refine ⟨?_, ?_, ?_⟩
-    · intro v h _ _
+    · intro v h _
       simp [sqlEval] at h; subst h
-      exact goodE_of_exact (by simp [ev, valueRes, Value.isNull]) (by simp [boolShaped])
+      exact goodE_of_exact (by simp [ev, valueRes, Value.isNull]) (by simp [boolShaped]) (by simp [boolShaped])
     · intro v _ hs; simp [shapeOK] at hs
     · intro sv v _ hs; simp [shapeOK] at hs
   | col c =>
     refine ⟨?_, ?_, ?_⟩
-    · intro v h _ _
+    · intro v h _
       simp [sqlEval] at h; subst h
-      refine goodE_of_exact (by simp [ev, colRes_eq]) ?_
-      intro _ ht
-      simp only [ev, colRes_eq]
-      exact boolOfRes_valueRes env _ ht
+      refine goodE_of_exact (by simp [ev, colRes_eq]) ?_ ?_
+      · intro _ ht
+        simp only [ev, colRes_eq]
+        exact boolOfRes_valueRes env _ ht
+      · intro _ ht
+        simp only [ev, colRes_eq]
+        exact truthOfRes_valueRes env _ ht
     · intro v _ hs; simp [shapeOK] at hs
     · intro sv v _ hs; simp [shapeOK] at hs
   | paren e ih =>
     refine ⟨?_, ?_, ?_⟩
-    · intro v h hs hp
-      simp only [sqlEval] at h; simp only [shapeOK] at hs; simp only [notKnown] at hp
-      have g := ih.1 v h hs hp
+    · intro v h hs
+      simp only [sqlEval] at h; simp only [shapeOK] at hs
+      have g := ih.1 v h hs
       exact ⟨by simpa [ev] using g.ag, by simpa [ev, boolTyped] using g.exact,
-        by simpa [ev, boolShaped] using g.bmode⟩
+        by simpa [ev, boolShaped] using g.bmode, by simpa [ev, boolShaped] using g.tmode⟩
     · intro v _ hs; simp [shapeOK] at hs
     · intro sv v _ hs; simp [shapeOK] at hs
   | neg e ih =>
     refine ⟨?_, ?_, ?_⟩
-    · intro v h hs hp
+    · intro v h hs
       simp only [sqlEval] at h
       obtain ⟨x, y, hx, hy, hf⟩ := bind2_ok h
       cases hx
       simp only [shapeOK, Bool.and_eq_true, Bool.not_eq_true'] at hs
-      simp only [notKnown] at hp
-      have g := ih.1 y hy hs.1 hp
+      have g := ih.1 y hy hs.1
       have he := g.exact hs.2
-      refine goodE_of_exact ?_ (by simp [boolShaped])
+      refine goodE_of_exact ?_ (by simp [boolShaped]) (by simp [boolShaped])
       simp only [ev, he]
       have := arithStep_sql env .sub (.num (ofNat 0)) y v hf
       simpa [valueRes, Value.isNull] using this
@@ -294,139 +370,137 @@ theorem good_all [Num01 ν] (env : Env ν) (row : Row ν) : ∀ e, Good env row 
     · intro sv v _ hs; simp [shapeOK] at hs
   | arith op l r ihl ihr =>
     refine ⟨?_, ?_, ?_⟩
-    · intro v h hs hp
+    · intro v h hs
       simp only [sqlEval] at h
       obtain ⟨x, y, hx, hy, hf⟩ := bind2_ok h
       simp only [shapeOK, Bool.and_eq_true, Bool.not_eq_true'] at hs
-      simp only [notKnown, Bool.and_eq_true] at hp
-      have gl := (ihl.1 x hx hs.1.1.1 hp.1).exact hs.1.2
-      have gr := (ihr.1 y hy hs.1.1.2 hp.2).exact hs.2
-      refine goodE_of_exact ?_ (by simp [boolShaped])
+      have gl := (ihl.1 x hx hs.1.1.1).exact hs.1.2
+      have gr := (ihr.1 y hy hs.1.1.2).exact hs.2
+      refine goodE_of_exact ?_ (by simp [boolShaped]) (by simp [boolShaped])
       simp only [ev, gl, gr]
       exact arithStep_sql env op x y v hf
     · intro v _ hs; simp [shapeOK] at hs
     · intro sv v _ hs; simp [shapeOK] at hs
   | cmp op l r ihl ihr =>
     refine ⟨?_, ?_, ?_⟩
-    · intro v h hs hp
+    · intro v h hs
       simp only [sqlEval] at h
       obtain ⟨x, y, hx, hy, hf⟩ := bind2_ok h
       simp only [shapeOK, Bool.and_eq_true, Bool.not_eq_true'] at hs
-      simp only [notKnown, Bool.and_eq_true] at hp
-      have gl := (ihl.1 x hx hs.1.1.1 hp.1).exact hs.1.2
-      have gr := (ihr.1 y hy hs.1.1.2 hp.2).exact hs.2
+      have gl := (ihl.1 x hx hs.1.1.1).exact hs.1.2
+      have gr := (ihr.1 y hy hs.1.1.2).exact hs.2
       obtain ⟨hc, ht⟩ := cmpStep_sql env op x y v hf
       have hw : ev env row (.cmp op l r) .w = .val (.bool v.isTrue) false := by
         simp only [ev, ev_v_eq_w, gl, gr]; exact hc
       have hb : ev env row (.cmp op l r) .b = .val (.bool v.isTrue) false := by
         simp only [ev, ev_v_eq_w, gl, gr]; exact hc
-      exact ⟨by rw [hw]; exact agrees_truth v ht, by simp [boolTyped], fun _ _ => hb⟩
+      have htm : ev env row (.cmp op l r) .t = valueRes v := by
+        simp only [ev, ev_v_eq_w, gl, gr]; exact cmpT_sql env op x y v hf
+      exact ⟨by rw [hw]; exact agrees_truth v ht, by simp [boolTyped], fun _ _ => hb, fun _ _ => htm⟩
     · intro v _ hs; simp [shapeOK] at hs
     · intro sv v _ hs; simp [shapeOK] at hs
   | and l r ihl ihr =>
     refine ⟨?_, ?_, ?_⟩
-    · intro v h hs hp
+    · intro v h hs
       simp only [sqlEval] at h
       obtain ⟨x, y, hx, hy, hf⟩ := bind2_ok h
       simp only [shapeOK, Bool.and_eq_true] at hs
-      simp only [notKnown, Bool.and_eq_true] at hp
       obtain ⟨hc, htx, hty, ht⟩ := andStep_sql x y v hf
-      have gl := (ihl.1 x hx hs.1.1.1 hp.1).bmode hs.1.2 htx
-      have gr := (ihr.1 y hy hs.1.1.2 hp.2).bmode hs.2 hty
+      have gl := (ihl.1 x hx hs.1.1.1).bmode hs.1.2 htx
+      have gr := (ihr.1 y hy hs.1.1.2).bmode hs.2 hty
       have hw : ev env row (.and l r) .w = .val (.bool v.isTrue) false := by
         simp only [ev, gl, gr]; exact hc
       have hb : ev env row (.and l r) .b = .val (.bool v.isTrue) false := by
         simp only [ev, gl, gr]; exact hc
-      exact ⟨by rw [hw]; exact agrees_truth v ht, by simp [boolTyped], fun _ _ => hb⟩
+      have glt := (ihl.1 x hx hs.1.1.1).tmode hs.1.2 htx
+      have grt := (ihr.1 y hy hs.1.1.2).tmode hs.2 hty
+      have htm : ev env row (.and l r) .t = valueRes v := by
+        simp only [ev, glt, grt]; exact andT_sql x y v hf
+      exact ⟨by rw [hw]; exact agrees_truth v ht, by simp [boolTyped], fun _ _ => hb, fun _ _ => htm⟩
     · intro v _ hs; simp [shapeOK] at hs
     · intro sv v _ hs; simp [shapeOK] at hs
   | or l r ihl ihr =>
     refine ⟨?_, ?_, ?_⟩
-    · intro v h hs hp
+    · intro v h hs
       simp only [sqlEval] at h
       obtain ⟨x, y, hx, hy, hf⟩ := bind2_ok h
       simp only [shapeOK, Bool.and_eq_true] at hs
-      simp only [notKnown, Bool.and_eq_true] at hp
       obtain ⟨hc, htx, hty, ht⟩ := orStep_sql x y v hf
-      have gl := (ihl.1 x hx hs.1.1.1 hp.1).bmode hs.1.2 htx
-      have gr := (ihr.1 y hy hs.1.1.2 hp.2).bmode hs.2 hty
+      have gl := (ihl.1 x hx hs.1.1.1).bmode hs.1.2 htx
+      have gr := (ihr.1 y hy hs.1.1.2).bmode hs.2 hty
       have hw : ev env row (.or l r) .w = .val (.bool v.isTrue) false := by
         simp only [ev, gl, gr]; exact hc
       have hb : ev env row (.or l r) .b = .val (.bool v.isTrue) false := by
         simp only [ev, gl, gr]; exact hc
-      exact ⟨by rw [hw]; exact agrees_truth v ht, by simp [boolTyped], fun _ _ => hb⟩
+      have glt := (ihl.1 x hx hs.1.1.1).tmode hs.1.2 htx
+      have grt := (ihr.1 y hy hs.1.1.2).tmode hs.2 hty
+      have htm : ev env row (.or l r) .t = valueRes v := by
+        simp only [ev, glt, grt]; exact orT_sql x y v hf
+      exact ⟨by rw [hw]; exact agrees_truth v ht, by simp [boolTyped], fun _ _ => hb, fun _ _ => htm⟩
     · intro v _ hs; simp [shapeOK] at hs
     · intro sv v _ hs; simp [shapeOK] at hs
   | not e ih =>
     refine ⟨?_, ?_, ?_⟩
-    · intro v h hs hp
+    · intro v h hs
       simp only [sqlEval] at h
       simp only [shapeOK, Bool.and_eq_true] at hs
-      simp only [notKnown, Bool.and_eq_true, nonNull] at hp
       cases hx : sqlEval env row e .e with
       | bad w => simp [hx] at h
       | ok x =>
         simp only [hx] at h
-        rw [hx] at hp
-        cases x with
-        | null => simp at hp
-        | num _ => simp [sqlNot] at h
-        | str _ => simp [sqlNot] at h
-        | bool b =>
-          simp [sqlNot] at h; subst h
-          have gb := (ih.1 (.bool b) hx hs.1 hp.1).bmode hs.2 (by simp [isTruth])
-          have hw : ev env row (.not e) .w = .val (.bool (!b)) false := by
-            simp only [ev, gb]; cases b <;> simp [notStep, Value.isTrue]
-          have hb : ev env row (.not e) .b = .val (.bool (!b)) false := by
-            simp only [ev, gb]; cases b <;> simp [notStep, Value.isTrue]
-          refine ⟨Or.inl (by rw [hw]; simp [valueRes, Value.isNull]), by simp [boolTyped], fun _ _ => ?_⟩
-          rw [hb]; cases b <;> simp [Value.isTrue]
+        obtain ⟨hT, hB, htx, htv⟩ := not_sql x v h
+        have gt := (ih.1 x hx hs.1).tmode hs.2 htx
+        have hw : ev env row (.not e) .w = .val (.bool v.isTrue) false := by
+          simp only [ev, gt]; exact hB
+        have hb : ev env row (.not e) .b = .val (.bool v.isTrue) false := by
+          simp only [ev, gt]; exact hB
+        have htm : ev env row (.not e) .t = valueRes v := by
+          simp only [ev, gt]; exact hT
+        exact ⟨by rw [hw]; exact agrees_truth v htv, by simp [boolTyped], fun _ _ => hb, fun _ _ => htm⟩
     · intro v _ hs; simp [shapeOK] at hs
     · intro sv v _ hs; simp [shapeOK] at hs
   | caseS ch ih =>
     refine ⟨?_, ?_, ?_⟩
-    · intro v h hs hp
-      simp only [sqlEval] at h; simp only [shapeOK] at hs; simp only [notKnown] at hp
-      obtain ⟨ha, he⟩ := ih.2.1 v h hs hp
-      exact ⟨by simpa [ev] using ha, by simpa [ev, boolTyped] using he, by simp [boolShaped]⟩
+    · intro v h hs
+      simp only [sqlEval] at h; simp only [shapeOK] at hs
+      obtain ⟨ha, he⟩ := ih.2.1 v h hs
+      exact ⟨by simpa [ev] using ha, by simpa [ev, boolTyped] using he, by simp [boolShaped], by simp [boolShaped]⟩
     · intro v _ hs; simp [shapeOK] at hs
     · intro sv v _ hs; simp [shapeOK] at hs
   | caseV sc ch ihs ihc =>
     refine ⟨?_, ?_, ?_⟩
-    · intro v h hs hp
+    · intro v h hs
       simp only [sqlEval] at h
       simp only [shapeOK, Bool.and_eq_true, Bool.not_eq_true'] at hs
-      simp only [notKnown, Bool.and_eq_true] at hp
       cases hsc : sqlEval env row sc .e with
       | bad w => simp [hsc] at h
       | ok sv =>
         simp only [hsc] at h
-        have gs := (ihs.1 sv hsc hs.1.1 hp.1).exact hs.1.2
-        obtain ⟨ha, he⟩ := ihc.2.2 sv v h hs.2 hp.2
+        have gs := (ihs.1 sv hsc hs.1.1).exact hs.1.2
+        obtain ⟨ha, he⟩ := ihc.2.2 sv v h hs.2
         have hw : ev env row (.caseV sc ch) .w = ev env row ch (.chV sv sv.isNull) := by
           simp [ev, gs, valueRes]
-        exact ⟨by rw [hw]; exact ha, by rw [hw]; simpa [boolTyped] using he, by simp [boolShaped]⟩
+        exact ⟨by rw [hw]; exact ha, by rw [hw]; simpa [boolTyped] using he, by simp [boolShaped], by simp [boolShaped]⟩
     · intro v _ hs; simp [shapeOK] at hs
     · intro sv v _ hs; simp [shapeOK] at hs
   | whenL c r rest ihc ihr ihrest =>
     refine ⟨?_, ?_, ?_⟩
     · intro v _ hs; simp [shapeOK] at hs
-    · intro v h hs hp
+    · intro v h hs
       simp only [shapeOK, Bool.and_eq_true] at hs
-      simp only [notKnown, Bool.and_eq_true] at hp
       simp only [sqlEval] at h
       cases hc : sqlEval env row c .e with
       | bad w => simp [hc] at h
       | ok cv =>
         simp only [hc] at h
-        have gc := ihc.1 cv hc hs.1.1.1 hp.1.1
+        have gc := ihc.1 cv hc hs.1.1.1
         cases cv with
         | bool b =>
           have hb := gc.bmode hs.1.1.2 (by simp [isTruth])
           cases b with
           | true =>
             simp only at h
-            have gr := ihr.1 v h hs.1.2 hp.1.2
+            have gr := ihr.1 v h hs.1.2
             have hw : ev env row (.whenL c r rest) .chS = ev env row r .w := by
               simp [ev, hb, Value.isTrue]
             refine ⟨by rw [hw]; exact gr.ag, ?_⟩
@@ -435,7 +509,7 @@ theorem good_all [Num01 ν] (env : Env ν) (row : Row ν) : ∀ e, Good env row 
             rw [hw]; exact gr.exact hbt.1
           | false =>
             simp only at h
-            obtain ⟨ha, he⟩ := ihrest.2.1 v h hs.2 hp.2
+            obtain ⟨ha, he⟩ := ihrest.2.1 v h hs.2
             have hw : ev env row (.whenL c r rest) .chS = ev env row rest .chS := by
               simp [ev, hb, Value.isTrue]
             refine ⟨by rw [hw]; exact ha, ?_⟩
@@ -445,7 +519,7 @@ theorem good_all [Num01 ν] (env : Env ν) (row : Row ν) : ∀ e, Good env row 
         | null =>
           have hb := gc.bmode hs.1.1.2 (by simp [isTruth])
           simp only at h
-          obtain ⟨ha, he⟩ := ihrest.2.1 v h hs.2 hp.2
+          obtain ⟨ha, he⟩ := ihrest.2.1 v h hs.2
           have hw : ev env row (.whenL c r rest) .chS = ev env row rest .chS := by
             simp [ev, hb, Value.isTrue]
           refine ⟨by rw [hw]; exact ha, ?_⟩
@@ -454,15 +528,14 @@ theorem good_all [Num01 ν] (env : Env ν) (row : Row ν) : ∀ e, Good env row 
           rw [hw]; exact he hbt.2
         | num x => simp at h
         | str s => simp at h
-    · intro sv v h hs hp
+    · intro sv v h hs
       simp only [shapeOK, Bool.and_eq_true, Bool.not_eq_true'] at hs
-      simp only [notKnown, Bool.and_eq_true] at hp
       simp only [sqlEval] at h
       cases hc : sqlEval env row c .e with
       | bad w => simp [hc] at h
       | ok wv =>
         simp only [hc] at h
-        have gc := (ihc.1 wv hc hs.1.1.1 hp.1.1).exact hs.1.1.2
+        have gc := (ihc.1 wv hc hs.1.1.1).exact hs.1.1.2
         cases hq : sqlCmp .eq sv wv with
         | bad w => simp [hq] at h
         | ok cv =>
@@ -471,7 +544,7 @@ theorem good_all [Num01 ν] (env : Env ν) (row : Row ν) : ∀ e, Good env row 
           by_cases hcv : cv = .bool true
           · subst hcv
             simp only at h
-            have gr := ihr.1 v h hs.1.2 hp.1.2
+            have gr := ihr.1 v h hs.1.2
             have hw : ev env row (.whenL c r rest) (.chV sv sv.isNull) = ev env row r .w := by
               simp [ev, gc, valueRes, hce, Value.isTrue]
             refine ⟨by rw [hw]; exact gr.ag, ?_⟩
@@ -486,7 +559,7 @@ theorem good_all [Num01 ν] (env : Env ν) (row : Row ν) : ∀ e, Good env row 
               cases cv with
               | bool b => cases b <;> simp_all
               | _ => simpa using h
-            obtain ⟨ha, he⟩ := ihrest.2.2 sv v h' hs.2 hp.2
+            obtain ⟨ha, he⟩ := ihrest.2.2 sv v h' hs.2
             have hw : ev env row (.whenL c r rest) (.chV sv sv.isNull) = ev env row rest (.chV sv sv.isNull) := by
               simp [ev, gc, valueRes, hce, hft]
             refine ⟨by rw [hw]; exact ha, ?_⟩
@@ -496,50 +569,52 @@ theorem good_all [Num01 ν] (env : Env ν) (row : Row ν) : ∀ e, Good env row 
   | elseL e ih =>
     refine ⟨?_, ?_, ?_⟩
     · intro v _ hs; simp [shapeOK] at hs
-    · intro v h hs hp
-      simp only [sqlEval] at h; simp only [shapeOK] at hs; simp only [notKnown] at hp
-      have g := ih.1 v h hs hp
+    · intro v h hs
+      simp only [sqlEval] at h; simp only [shapeOK] at hs
+      have g := ih.1 v h hs
       exact ⟨by simpa [ev] using g.ag, by simpa [ev, boolTyped] using g.exact⟩
-    · intro sv v h hs hp
-      simp only [sqlEval] at h; simp only [shapeOK] at hs; simp only [notKnown] at hp
-      have g := ih.1 v h hs hp
+    · intro sv v h hs
+      simp only [sqlEval] at h; simp only [shapeOK] at hs
+      have g := ih.1 v h hs
       exact ⟨by simpa [ev] using g.ag, by simpa [ev, boolTyped] using g.exact⟩
   | endL =>
     refine ⟨?_, ?_, ?_⟩
     · intro v _ hs; simp [shapeOK] at hs
-    · intro v h _ _
+    · intro v h _
       simp [sqlEval] at h; subst h
       exact ⟨Or.inl (by simp [ev, valueRes, Value.isNull]), fun _ => by simp [ev, valueRes, Value.isNull]⟩
-    · intro sv v h _ _
+    · intro sv v h _
       simp [sqlEval] at h; subst h
       exact ⟨Or.inl (by simp [ev, valueRes, Value.isNull]), fun _ => by simp [ev, valueRes, Value.isNull]⟩
   | call1 f a iha =>
     refine ⟨?_, ?_, ?_⟩
-    · intro v h hs hp
+    · intro v h hs
       simp only [sqlEval] at h
       simp only [shapeOK, Bool.and_eq_true, Bool.not_eq_true'] at hs
-      simp only [notKnown] at hp
       cases hx : sqlEval env row a .e with
       | bad w => simp [hx] at h
       | ok x =>
         simp only [hx] at h
-        have ga := (iha.1 x hx hs.1 hp).exact hs.2
+        have ga := (iha.1 x hx hs.1).exact hs.2
         have hf := sqlCall_ok h
         have hw : ev env row (.call1 f a) .w = valueRes v := by
           simp only [ev, ev_v_eq_w, ga, callStep_1, hf]
-        refine goodE_of_exact hw ?_
-        intro _ ht
-        have : ev env row (.call1 f a) .b = boolOfRes env (valueRes v) := by
-          simp only [ev, ev_v_eq_w, ga, callStep_1, hf]
-        rw [this]; exact boolOfRes_valueRes env v ht
+        refine goodE_of_exact hw ?_ ?_
+        · intro _ ht
+          have : ev env row (.call1 f a) .b = boolOfRes env (valueRes v) := by
+            simp only [ev, ev_v_eq_w, ga, callStep_1, hf]
+          rw [this]; exact boolOfRes_valueRes env v ht
+        · intro _ ht
+          have : ev env row (.call1 f a) .t = truthOfRes env (valueRes v) := by
+            simp only [ev, ev_v_eq_w, ga, callStep_1, hf]
+          rw [this]; exact truthOfRes_valueRes env v ht
     · intro v _ hs; simp [shapeOK] at hs
     · intro sv v _ hs; simp [shapeOK] at hs
   | call2 f a b iha ihb =>
     refine ⟨?_, ?_, ?_⟩
-    · intro v h hs hp
+    · intro v h hs
       simp only [sqlEval] at h
       simp only [shapeOK, Bool.and_eq_true, Bool.not_eq_true'] at hs
-      simp only [notKnown, Bool.and_eq_true] at hp
       cases hx : sqlEval env row a .e with
       | bad w => simp [hx] at h
       | ok x =>
@@ -547,24 +622,27 @@ theorem good_all [Num01 ν] (env : Env ν) (row : Row ν) : ∀ e, Good env row 
         | bad w => simp [hx, hy] at h
         | ok y =>
           simp only [hx, hy] at h
-          have ga := (iha.1 x hx hs.1.1.1 hp.1).exact hs.1.2
-          have gb := (ihb.1 y hy hs.1.1.2 hp.2).exact hs.2
+          have ga := (iha.1 x hx hs.1.1.1).exact hs.1.2
+          have gb := (ihb.1 y hy hs.1.1.2).exact hs.2
           have hf := sqlCall_ok h
           have hw : ev env row (.call2 f a b) .w = valueRes v := by
             simp only [ev, ev_v_eq_w, ga, gb, callStep_2, hf]
-          refine goodE_of_exact hw ?_
-          intro _ ht
-          have : ev env row (.call2 f a b) .b = boolOfRes env (valueRes v) := by
-            simp only [ev, ev_v_eq_w, ga, gb, callStep_2, hf]
-          rw [this]; exact boolOfRes_valueRes env v ht
+          refine goodE_of_exact hw ?_ ?_
+          · intro _ ht
+            have : ev env row (.call2 f a b) .b = boolOfRes env (valueRes v) := by
+              simp only [ev, ev_v_eq_w, ga, gb, callStep_2, hf]
+            rw [this]; exact boolOfRes_valueRes env v ht
+          · intro _ ht
+            have : ev env row (.call2 f a b) .t = truthOfRes env (valueRes v) := by
+              simp only [ev, ev_v_eq_w, ga, gb, callStep_2, hf]
+            rw [this]; exact truthOfRes_valueRes env v ht
     · intro v _ hs; simp [shapeOK] at hs
     · intro sv v _ hs; simp [shapeOK] at hs
   | call3 f a b c iha ihb ihc =>
     refine ⟨?_, ?_, ?_⟩
-    · intro v h hs hp
+    · intro v h hs
       simp only [sqlEval] at h
       simp only [shapeOK, Bool.and_eq_true, Bool.not_eq_true'] at hs
-      simp only [notKnown, Bool.and_eq_true] at hp
       cases hx : sqlEval env row a .e with
       | bad w => simp [hx] at h
       | ok x =>
@@ -575,17 +653,21 @@ theorem good_all [Num01 ν] (env : Env ν) (row : Row ν) : ∀ e, Good env row 
           | bad w => simp [hx, hy, hz] at h
           | ok z =>
             simp only [hx, hy, hz] at h
-            have ga := (iha.1 x hx hs.1.1.1.1.1 hp.1.1).exact hs.1.1.2
-            have gb := (ihb.1 y hy hs.1.1.1.1.2 hp.1.2).exact hs.1.2
-            have gc := (ihc.1 z hz hs.1.1.1.2 hp.2).exact hs.2
+            have ga := (iha.1 x hx hs.1.1.1.1.1).exact hs.1.1.2
+            have gb := (ihb.1 y hy hs.1.1.1.1.2).exact hs.1.2
+            have gc := (ihc.1 z hz hs.1.1.1.2).exact hs.2
             have hf := sqlCall_ok h
             have hw : ev env row (.call3 f a b c) .w = valueRes v := by
               simp only [ev, ev_v_eq_w, ga, gb, gc, callStep_3, hf]
-            refine goodE_of_exact hw ?_
-            intro _ ht
-            have : ev env row (.call3 f a b c) .b = boolOfRes env (valueRes v) := by
-              simp only [ev, ev_v_eq_w, ga, gb, gc, callStep_3, hf]
-            rw [this]; exact boolOfRes_valueRes env v ht
+            refine goodE_of_exact hw ?_ ?_
+            · intro _ ht
+              have : ev env row (.call3 f a b c) .b = boolOfRes env (valueRes v) := by
+                simp only [ev, ev_v_eq_w, ga, gb, gc, callStep_3, hf]
+              rw [this]; exact boolOfRes_valueRes env v ht
+            · intro _ ht
+              have : ev env row (.call3 f a b c) .t = truthOfRes env (valueRes v) := by
+                simp only [ev, ev_v_eq_w, ga, gb, gc, callStep_3, hf]
+              rw [this]; exact truthOfRes_valueRes env v ht
     · intro v _ hs; simp [shapeOK] at hs
     · intro sv v _ hs; simp [shapeOK] at hs
 
